@@ -261,8 +261,14 @@ func resetRule(c *Ctx, r *Rule) {
 						return true
 					}
 				}
-				if c, ok := in.(ssa.CallInstruction); ok && isCall(c, "pkg/statsd.deleteMetric") {
-					return true
+				if c, ok := in.(ssa.CallInstruction); ok {
+					if isCall(c, "pkg/statsd.deleteMetric") {
+						return true
+					}
+					// the same helper made generic over the four collection types
+					if cal := staticCallee(c); cal != nil && cal.Origin() != nil && cal.Origin().Name() == "deleteMetric" && fnPkgPath(cal.Origin()) == pkgPath("pkg/statsd") {
+						return true
+					}
 				}
 				return false
 			})
